@@ -258,11 +258,23 @@ def symsqrt(x):
     return math.sqrt(x)
 
 
+def symisclose(a, b, *, rel_tol=1e-09, abs_tol=0.0):
+    """math.isclose over the reals: |a-b| <= max(rel_tol*max(|a|,|b|), abs_tol) (the tolerances, float literals, read exactly)"""
+    if not isinstance(a, Sym) and not isinstance(b, Sym):
+        return math.isclose(a, b, rel_tol=rel_tol, abs_tol=abs_tol)
+    d = abs(a - b)
+    if bool(d <= Fraction(abs_tol)):
+        return True
+    m = abs(a) if bool(abs(a) >= abs(b)) else abs(b)
+    return bool(d <= Fraction(rel_tol) * m)
+
+
 class MathShim:
     def __getattr__(self, k):
         return getattr(math, k)
 
     sqrt = staticmethod(symsqrt)
+    isclose = staticmethod(symisclose)
 
 
 # -------------------------------------------------------------------- arctan2
